@@ -26,18 +26,18 @@ type batchSpec struct {
 }
 
 type propSpec struct {
-	ID         string
-	Level      string // evidence level
-	Batches    []batchSpec
-	QuickRuns  int
-	QuickWall  time.Duration
-	ThorRuns   int
-	ThorWall   time.Duration
-	RunWall    time.Duration // per-run watchdog
-	Rule       string
+	ID          string
+	Level       string // evidence level
+	Batches     []batchSpec
+	QuickRuns   int
+	QuickWall   time.Duration
+	ThorRuns    int
+	ThorWall    time.Duration
+	RunWall     time.Duration // per-run watchdog
+	Rule        string
 	CrashCounts bool // the statement itself forbids crashes: a frp panic/fatal in this check's worlds is this property's violation
-	Real, Stub []string
-	Assume     []string
+	Real, Stub  []string
+	Assume      []string
 }
 
 var commonReal = []string{"server.Service", "client.Service", "pkg/* of frp", "golib (crypto, io.Join, mux, msg/json, dial hooks)", "yamux", "crypto/tls", "net/http", "x/net/websocket", "x/time/rate", "go-proxyproto"}
@@ -92,8 +92,8 @@ func init() {
 			{Name: "l1", World: "authz", Weight: 5},
 			{Name: "l2", World: "authz", Weight: 3, Park: 0.005, Gos: 0.02},
 		},
-		Stub: []string{"network (simnet)", "scripted clients, visitors and adversaries (independent protocol implementation)", "users", "clock"},
-		Rule: "one run = real frps (token auth, drawn additional scopes, TLS and mux on/off, finite heartbeat timeout) with an honest scripted client carrying traffic and a seeded sequence of adversarial histories (bad/missing/self-exempting logins, foreign or unknown work connections, unauthenticated first messages, invalid-heartbeat sessions, floods); distinct = distinct event-log hash",
+		Stub:   []string{"network (simnet)", "scripted clients, visitors and adversaries (independent protocol implementation)", "users", "clock"},
+		Rule:   "one run = real frps (token auth, drawn additional scopes, TLS and mux on/off, finite heartbeat timeout) with an honest scripted client carrying traffic and a seeded sequence of adversarial histories (bad/missing/self-exempting logins, foreign or unknown work connections, unauthenticated first messages, invalid-heartbeat sessions, floods); distinct = distinct event-log hash",
 		Assume: []string{"OIDC method, kcp/quic/websocket listeners and the ssh gateway's internal listener are not exercised"},
 	})
 	reg(&propSpec{ID: "C08", Level: "exploration",
@@ -118,8 +118,8 @@ func init() {
 			{Name: "l2", World: "codec", Weight: 2, Park: 0.005, Gos: 0.02},
 			{Name: "nathole-frames", World: "nathole", Weight: 2},
 		},
-		Stub: []string{"network (simnet)", "scripted peers (independent protocol implementation)", "users", "clock"},
-		Rule: "one run = real frps with an honest scripted client (independent codec: any drift of framing or field names breaks every login) and a seeded sequence of framing cases on fresh and established connections: 1-byte chunking, EOF at arbitrary offsets, unknown type bytes, negative/oversized lengths with withheld bodies, malformed bodies, golden frames of the client->server message types; every frame frps emits is re-parsed against the released field names; distinct = distinct event-log hash",
+		Stub:   []string{"network (simnet)", "scripted peers (independent protocol implementation)", "users", "clock"},
+		Rule:   "one run = real frps with an honest scripted client (independent codec: any drift of framing or field names breaks every login) and a seeded sequence of framing cases on fresh and established connections: 1-byte chunking, EOF at arbitrary offsets, unknown type bytes, negative/oversized lengths with withheld bodies, malformed bodies, golden frames of the client->server message types; every frame frps emits is re-parsed against the released field names; distinct = distinct event-log hash",
 		Assume: []string{"value-level round trip over all field values of all 18 types is an input-only statement and is covered only as far as generated messages cross the simulated wire (DESIGN.md §9)"},
 	})
 	reg(&propSpec{ID: "C16", Level: "exploration", CrashCounts: true, RunWall: 240 * time.Second,
@@ -144,8 +144,8 @@ func init() {
 			{Name: "fault-free-l2", World: "http", Weight: 2, Park: 0.002, Gos: 0.01},
 			{Name: "plugins", World: "httpplugins", Weight: 2},
 		},
-		Stub: []string{"network (simnet)", "raw HTTP/1.1 users (plain or over crypto/tls)", "recording HTTP/1.1 backend (plain or TLS)", "clock"},
-		Rule: "one run = real frps + real frpc with an http proxy (drawn Host rewrite, request/response header sets, encryption, compression, bandwidth limit, mux, TLS, pool) and 1-4 keep-alive user connections each sending 1-8 generated requests (methods, percent-encoded paths, queries, multi-valued mixed-case headers, content-length and chunked bodies) answered by a recording backend with generated responses (status, headers, content-length/chunked/close-delimited bodies); concurrently one request to an unreachable and one to a silent backend, 0-3 protocol-upgrade or CONNECT tunnels with 0-48 KB per direction, and (half of the runs) a second proxy on the same host routed by http user with its own backend; batch plugins: the same request/response generator through the http2http, http2https, https2http and https2https client plugins behind an http, https or tcp proxy; distinct = distinct event-log hash",
+		Stub:   []string{"network (simnet)", "raw HTTP/1.1 users (plain or over crypto/tls)", "recording HTTP/1.1 backend (plain or TLS)", "clock"},
+		Rule:   "one run = real frps + real frpc with an http proxy (drawn Host rewrite, request/response header sets, encryption, compression, bandwidth limit, mux, TLS, pool) and 1-4 keep-alive user connections each sending 1-8 generated requests (methods, percent-encoded paths, queries, multi-valued mixed-case headers, content-length and chunked bodies) answered by a recording backend with generated responses (status, headers, content-length/chunked/close-delimited bodies); concurrently one request to an unreachable and one to a silent backend, 0-3 protocol-upgrade or CONNECT tunnels with 0-48 KB per direction, and (half of the runs) a second proxy on the same host routed by http user with its own backend; batch plugins: the same request/response generator through the http2http, http2https, https2http and https2https client plugins behind an http, https or tcp proxy; distinct = distinct event-log hash",
 		Assume: []string{"behind a plain tcp proxy no component in front of the plugin knows the user's address, so X-Forwarded-For is not checked there", "HTTP/2 to the https2http(s) plugins is not exercised (enableHTTP2=false)", "the proxy's HTTP client may add 'Accept-Encoding: gzip' when the user sent none; header order across different names is not compared"},
 	})
 	reg(&propSpec{ID: "C06", Level: "exploration",
@@ -162,8 +162,8 @@ func init() {
 			{Name: "routes-l2", World: "routes", Weight: 2, Park: 0.005, Gos: 0.02},
 			{Name: "services", World: "services", Weight: 2},
 		},
-		Stub: []string{"network (simnet)", "scripted route owners (independent protocol implementation) stamping and recording every request", "raw HTTP / TLS ClientHello / CONNECT / SOCKS5 users", "target server behind the proxy plugins", "clock"},
-		Rule: "batch services: real frps (dashboard API) + real frpc (admin API; static_file, http_proxy and socks5 plugins behind tcp proxies), every service with its own drawn user name and password (colons and spaces allowed in passwords); 4-20 credential variants per service (none, exact, extended/prefix/empty/swapped user or password, malformed base64, another service's credentials) on GET/PUT/POST/DELETE, CONNECT, absolute-form and SOCKS5 sub-negotiation; oracle: served / tunnelled / authenticated implies exact credentials, refusals are challenges (401/407) or closes and reach neither the target nor a state-changing handler. Batches routes: same world as C06 with password-protected http and tcpmux routes mixed with unprotected and user-routed ones on the same hosts; request shapes: origin-form and absolute-form targets, Authorization / Proxy-Authorization in any casing, right, wrong, missing and foreign credentials; oracle: a protected route's backend saw a request only if the request carried exactly its credentials; distinct = distinct event-log hash",
+		Stub:   []string{"network (simnet)", "scripted route owners (independent protocol implementation) stamping and recording every request", "raw HTTP / TLS ClientHello / CONNECT / SOCKS5 users", "target server behind the proxy plugins", "clock"},
+		Rule:   "batch services: real frps (dashboard API) + real frpc (admin API; static_file, http_proxy and socks5 plugins behind tcp proxies), every service with its own drawn user name and password (colons and spaces allowed in passwords); 4-20 credential variants per service (none, exact, extended/prefix/empty/swapped user or password, malformed base64, another service's credentials) on GET/PUT/POST/DELETE, CONNECT, absolute-form and SOCKS5 sub-negotiation; oracle: served / tunnelled / authenticated implies exact credentials, refusals are challenges (401/407) or closes and reach neither the target nor a state-changing handler. Batches routes: same world as C06 with password-protected http and tcpmux routes mixed with unprotected and user-routed ones on the same hosts; request shapes: origin-form and absolute-form targets, Authorization / Proxy-Authorization in any casing, right, wrong, missing and foreign credentials; oracle: a protected route's backend saw a request only if the request carried exactly its credentials; distinct = distinct event-log hash",
 		Assume: []string{"HTTP/1.0 and h2c request forms are not exercised", "an authorised plain (non-CONNECT) request through the http_proxy plugin and an authorised SOCKS5 CONNECT would dial through net/http's DefaultTransport / go-socks5's dialer, which are outside the network seam: authorised traffic is checked through CONNECT (http_proxy) and through the authentication status (socks5) only", "dashboard and admin static assets (/static/) are not requested: the asset file system is only loaded by the frps/frpc main programs"},
 	})
 	reg(&propSpec{ID: "C03", Level: "exploration",
@@ -180,9 +180,9 @@ func init() {
 			{Name: "l1", World: "nathole", Weight: 5},
 			{Name: "l2", World: "nathole", Weight: 3, Park: 0.01, Gos: 0.02},
 		},
-		Stub: []string{"network (simnet TCP + UDP)", "scripted visitor, owner and third-party controls (independent protocol implementation)", "clock"},
-		Real: append(append([]string{}, commonReal...), "pkg/nathole controller, analysis, classification; nathole.MakeHole for both roles over simulated UDP"),
-		Rule: "one run = 2-12 hole-punching sessions between a scripted visitor and a scripted xtcp owner on real frps with generated NAT observations (equal/changing IPs and ports, edge ports, too few, malformed, public), right/wrong signatures, unknown proxies, and message orders (report before the owner's answer, duplicates, unknown session ids, silent owner); responses are checked for pairing, complementarity, mode rules, candidate ranges, third-party silence; finally the real MakeHole routine is run for both roles on an unfiltered simulated UDP network; distinct = distinct event-log hash",
+		Stub:   []string{"network (simnet TCP + UDP)", "scripted visitor, owner and third-party controls (independent protocol implementation)", "clock"},
+		Real:   append(append([]string{}, commonReal...), "pkg/nathole controller, analysis, classification; nathole.MakeHole for both roles over simulated UDP"),
+		Rule:   "one run = 2-12 hole-punching sessions between a scripted visitor and a scripted xtcp owner on real frps with generated NAT observations (equal/changing IPs and ports, edge ports, too few, malformed, public), right/wrong signatures, unknown proxies, and message orders (report before the owner's answer, duplicates, unknown session ids, silent owner); responses are checked for pairing, complementarity, mode rules, candidate ranges, third-party silence; finally the real MakeHole routine is run for both roles on an unfiltered simulated UDP network; distinct = distinct event-log hash",
 		Assume: []string{"STUN discovery is not simulated: observations are generated, and for the meet test they are the peers' real simulated addresses"},
 	})
 	reg(&propSpec{ID: "C05", Level: "exploration",
@@ -190,9 +190,9 @@ func init() {
 			{Name: "l1", World: "wire", Weight: 6},
 			{Name: "l2", World: "wire", Weight: 2, Park: 0.003, Gos: 0.02},
 		},
-		Stub: []string{"network (simnet) with a byte tap on every connection accepted at the server's bind port", "echo / HTTP backend", "users", "scripted peers and a scripted TLS server (crypto/tls, independent of frp's transport code)", "clock"},
-		Real: append(append([]string{}, commonReal...), "pkg/transport TLS configuration, pkg/util/net TLS dial/listen wrappers, golib crypto + snappy streams"),
-		Rule: "one run = either (a) real frps + two real frpc (tcp, stcp + visitor, http with credentials) with a drawn configuration (TLS on/off, custom first byte, tcp/websocket, mux, pool, proxy encryption, compression) carrying per-run high-entropy markers as token, secret key, http password, proxy name and payload, after which every byte that crossed the client-server path is searched for the markers (raw and base64); or (b) a policy scenario: a server with forced TLS and/or a trusted CA against scripted peers (plaintext, TLS without / with rogue / with good certificate, all 256 first bytes followed by a plaintext login), or a real frpc with trusted CA + server name against a scripted TLS server with the right identity, a rogue-CA identity or another name; distinct = distinct event-log hash",
+		Stub:   []string{"network (simnet) with a byte tap on every connection accepted at the server's bind port", "echo / HTTP backend", "users", "scripted peers and a scripted TLS server (crypto/tls, independent of frp's transport code)", "clock"},
+		Real:   append(append([]string{}, commonReal...), "pkg/transport TLS configuration, pkg/util/net TLS dial/listen wrappers, golib crypto + snappy streams"),
+		Rule:   "one run = either (a) real frps + two real frpc (tcp, stcp + visitor, http with credentials) with a drawn configuration (TLS on/off, custom first byte, tcp/websocket, mux, pool, proxy encryption, compression) carrying per-run high-entropy markers as token, secret key, http password, proxy name and payload, after which every byte that crossed the client-server path is searched for the markers (raw and base64); or (b) a policy scenario: a server with forced TLS and/or a trusted CA against scripted peers (plaintext, TLS without / with rogue / with good certificate, all 256 first bytes followed by a plaintext login), or a real frpc with trusted CA + server name against a scripted TLS server with the right identity, a rogue-CA identity or another name; distinct = distinct event-log hash",
 		Assume: []string{"kcp, quic and wss transports are not simulated", "a marker is searched raw and base64-encoded only; other reversible encodings of a secret would not be noticed"},
 	})
 	reg(&propSpec{ID: "C14", Level: "fault_enumeration",
@@ -200,8 +200,8 @@ func init() {
 			{Name: "l1", World: "liveness", Weight: 6},
 			{Name: "l2", World: "liveness", Weight: 2, Park: 0.002, Gos: 0.01},
 		},
-		Stub: []string{"network (simnet) with partitions, resets, node crash/restart", "scripted client / scripted server (independent protocol implementation)", "echo backend", "users", "clock (simulated days cost milliseconds)"},
-		Rule: "one run = one of five scenarios drawn with its parameters: (a) real frps vs a scripted client that falls silent (just silent / blackholed / chatty without heartbeats) at an arbitrary moment, heartbeat timeout 3-90 s, mux on/off; (b) valid heartbeats with jitter for up to 20000 beats, or real frpc+frps left alone for 1-5 simulated days; (c) real frpc vs a scripted server that stops answering heartbeats; (d) real frpc+frps with 1-7 faults (connection resets, blackholes of 2 s - 2 h, server crash and restart after 1 s - 10 min) then bounded healing incl. tunnel round trips; (e) real frpc vs an absent / refusing / flapping scripted server for 30 s - 6 h: attempt-rate cap, then re-login and re-registration of all proxies; distinct = distinct event-log hash",
+		Stub:   []string{"network (simnet) with partitions, resets, node crash/restart", "scripted client / scripted server (independent protocol implementation)", "echo backend", "users", "clock (simulated days cost milliseconds)"},
+		Rule:   "one run = one of five scenarios drawn with its parameters: (a) real frps vs a scripted client that falls silent (just silent / blackholed / chatty without heartbeats) at an arbitrary moment, heartbeat timeout 3-90 s, mux on/off; (b) valid heartbeats with jitter for up to 20000 beats, or real frpc+frps left alone for 1-5 simulated days; (c) real frpc vs a scripted server that stops answering heartbeats; (d) real frpc+frps with 1-7 faults (connection resets, blackholes of 2 s - 2 h, server crash and restart after 1 s - 10 min) then bounded healing incl. tunnel round trips; (e) real frpc vs an absent / refusing / flapping scripted server for 30 s - 6 h: attempt-rate cap, then re-login and re-registration of all proxies; distinct = distinct event-log hash",
 		Assume: []string{"with stream multiplexing, a blackhole that cuts a mux frame in half delays the server-side teardown until the mux keep-alive gives up (interval 30 s + 10 s write timeout); the bound used in that one case is heartbeatTimeout + 48 s (DESIGN.md §8 C14)"},
 	})
 	reg(&propSpec{ID: "C19", Level: "exploration",
@@ -209,9 +209,9 @@ func init() {
 			{Name: "l1", World: "client", Weight: 6},
 			{Name: "l2", World: "client", Weight: 2, Park: 0.005, Gos: 0.02},
 		},
-		Real: []string{"client.Service, client/proxy manager and wrapper, client/health monitor, client control and connector", "golib", "net/http (health probes)"},
-		Stub: []string{"network (simnet) with per-dial verdicts (accept / refuse / blackhole) on the probe target", "scripted server (independent protocol implementation) with per-proxy reply policy: success, error, transient error, late, never", "echo / HTTP probe backends", "clock"},
-		Rule: "one run = either a reload history (1-6 configuration sets over six proxies of five types - add, remove, change, reorder - applied at moments between 0 and 70 s after the previous one, against server reply policies) or a health history (tcp or http probes with drawn interval/timeout/maxFailed against a schedule of 12-50 probe outcomes); oracles over the message trace at the scripted server, the status API and a work-connection probe; distinct = distinct event-log hash",
+		Real:   []string{"client.Service, client/proxy manager and wrapper, client/health monitor, client control and connector", "golib", "net/http (health probes)"},
+		Stub:   []string{"network (simnet) with per-dial verdicts (accept / refuse / blackhole) on the probe target", "scripted server (independent protocol implementation) with per-proxy reply policy: success, error, transient error, late, never", "echo / HTTP probe backends", "clock"},
+		Rule:   "one run = either a reload history (1-6 configuration sets over six proxies of five types - add, remove, change, reorder - applied at moments between 0 and 70 s after the previous one, against server reply policies) or a health history (tcp or http probes with drawn interval/timeout/maxFailed against a schedule of 12-50 probe outcomes); oracles over the message trace at the scripted server, the status API and a work-connection probe; distinct = distinct event-log hash",
 		Assume: []string{"visitors are not reloaded in this world; the timing constants of the proxy wrapper (3 s check, 20 s wait, 30 s retry) are not mirrored: convergence is given 110 s"},
 	})
 	reg(&propSpec{ID: "C10", Level: "fault_enumeration",
@@ -856,7 +856,7 @@ func writeReplay(id string, in RunInput, v Violation, res *Result, bld *build) s
 		"property": id, "input": in, "violation": v,
 		"expected_log_hash": res.LogHash, "steps": res.Steps, "sim_time_s": res.SimTime,
 		"yield_trace": res.YieldTrace, "frp_log_tail": lastN(res.FrpLog, 60), "event_log_tail": lastN(res.Log, 80),
-		"tree_hash": filepath.Base(bld.dir),
+		"tree_hash":  filepath.Base(bld.dir),
 		"replay_cmd": fmt.Sprintf("./check %s --replay %s", id, path),
 	}
 	b, _ := json.MarshalIndent(rep, "", " ")
